@@ -661,3 +661,72 @@ pub fn mutate(base: &Program, m: usize, rng: &mut Rng) -> Option<Program> {
     }
     Some(p)
 }
+
+/// C19: the same source and input run K times in separate processes must give byte-identical
+/// stdout and identical hook traces (diagnostics included)
+pub fn gen_repeats(rng: &mut Rng, sh: &mut Shards, out: &str, thorough: bool) {
+    let bin = bin_path();
+    let dir = format!("{}/runs", out);
+    std::fs::create_dir_all(&dir).unwrap();
+    let k = if thorough { 20 } else { 5 };
+    let mut progs: Vec<(Program, Layout)> = Vec::new();
+    for i in 0..(if thorough { 120 } else { 30 }) {
+        let mut g = Gen::new(rng);
+        let mut kn = Knobs::control();
+        kn.int3 = i % 3 == 0;
+        kn.div = i % 4 == 0;
+        let mut p = g.program(&kn);
+        p.interp = i % 5 == 0;
+        p.stdin = rand_script(rng, 30, 3);
+        progs.push((p, Layout::random(rng)));
+    }
+    // invalid programs, in particular with several simultaneous errors
+    let multi: Vec<Vec<Item>> = vec![
+        vec![Item::Label("start".into()), Item::Ins(Ins::Jcc { mn: "jmp", label: "nolab_A".into(), target: 0 }), Item::Ins(Ins::Jcc { mn: "jz", label: "nolab_B".into(), target: 0 }), Item::Ins(Ins::Jcc { mn: "loop", label: "nolab_C".into(), target: 0 })],
+        vec![Item::Label("start".into()), Item::Ins(Ins::Jcc { mn: "jnz", label: "zz_1".into(), target: 0 }), Item::Ins(Ins::Ctl { op: "nop" }), Item::Ins(Ins::Jcc { mn: "jmp", label: "aa_2".into(), target: 0 }), Item::Ins(Ins::Jcc { mn: "jmp", label: "mm_3".into(), target: 0 }), Item::Ins(Ins::Jcc { mn: "jmp", label: "bb_4".into(), target: 0 })],
+        vec![Item::Ins(Ins::Jcc { mn: "jmp", label: "nolab_A".into(), target: 0 }), Item::Ins(Ins::Jcc { mn: "jmp", label: "nolab_B".into(), target: 0 })], // no start either
+        vec![Item::Label("start".into()), Item::Ins(Ins::Unsupported { text: "into".into() }), Item::Ins(Ins::Jcc { mn: "jmp", label: "nolab_A".into(), target: 0 })],
+        vec![Item::Label("start".into()), Item::Ins(Ins::Mov { w: 8, dst: Opnd::Reg8("al"), src: Opnd::Imm(300) }), Item::Ins(Ins::Mov { w: 8, dst: Opnd::Reg8("bl"), src: Opnd::Imm(400) })],
+    ];
+    for (i, items) in multi.iter().enumerate() {
+        for r in 0..(if thorough { 4 } else { 2 }) {
+            let mut lay = Layout::plain();
+            lay.blank = r as u64;
+            progs.push((Program { data: Vec::new(), items: items.clone(), interp: false, stdin: Vec::new(), note: format!("multi-error-{}", i) }, lay));
+        }
+    }
+    for (n, (p, lay)) in progs.iter().enumerate() {
+        let r = render(p, lay, rng, n);
+        let mut sin = Vec::new();
+        for s in &p.stdin {
+            sin.extend_from_slice(&s.bytes());
+        }
+        let runs: Vec<Vec<serde_json::Value>> = std::thread::scope(|s| {
+            let hs: Vec<_> = (0..k).map(|j| {
+                let (bin, dir, r, sin) = (&bin, &dir, &r, &sin);
+                s.spawn(move || run_cli(bin, dir, n * 100 + j, r, sin, p.interp, 8000))
+            }).collect();
+            hs.into_iter().map(|h| h.join().unwrap()).collect()
+        });
+        let first = serde_json::to_string(&runs[0][1..]).unwrap();
+        let mut identical = true;
+        let mut what = String::new();
+        for (j, run) in runs.iter().enumerate().skip(1) {
+            let s = serde_json::to_string(&run[1..]).unwrap();
+            if s != first {
+                identical = false;
+                // name the first event that differs
+                let a = &runs[0];
+                let pos = (1..a.len().min(run.len())).find(|q| a[*q] != run[*q]).unwrap_or(a.len().min(run.len()));
+                what = format!("run {} differs from run 0 at event {}: {} vs {}", j, pos,
+                               a.get(pos).map(|e| e.to_string()).unwrap_or_default().chars().take(200).collect::<String>(),
+                               run.get(pos).map(|e| e.to_string()).unwrap_or_default().chars().take(200).collect::<String>());
+                break;
+            }
+        }
+        sh.count(&format!("repeat-programs:{}", if p.note.starts_with("multi") { "multi-error" } else { "generated" }), 1);
+        sh.count("repeat-runs", k as u64);
+        sh.unit(&[serde_json::json!({"ev":"repeat","runs":k,"identical":identical,"what":what,"note":p.note,"source":r.source})]);
+    }
+    let _ = std::fs::remove_dir_all(&dir);
+}
